@@ -67,16 +67,19 @@ def token_format(eng, v, spec):
     if spec not in ("", "r", "s"):
         raise E.SymLeak(f"format spec {spec!r} on a symbolic number")
     toks = eng.path_state.setdefault("tokens", [])
-    if eng.branch(v.z == 0):
-        return "0.0"
-    if eng.branch(v.z == 1):
-        return "1.0"
-    if eng.branch(v.z == -1):
-        return "-1.0"
+    literal = eng.path_state.get("literal_tokens", True)
+    if literal:
+        if eng.branch(v.z == 0):
+            return "0.0"
+        if eng.branch(v.z == 1):
+            return "1.0"
+        if eng.branch(v.z == -1):
+            return "-1.0"
     for u, t in toks:
         if eng.branch(v.z == u):
             return t
-    neg = eng.branch(v.z < 0)
+    # the sign is only needed where pacti inspects the text (syntax/data.py)
+    neg = eng.branch(v.z < 0) if literal else False
     t = ("-" if neg else "") + f"<n{len(toks)}>"
     toks.append((v.z, t))
     return t
@@ -162,7 +165,11 @@ def install(stub_str=True, validate_lp=False):
         sympy_shim.install_hook()
         S.np = NpShim(S.np)
     P.linprog = lp.make_linprog(_INSTALLED["linprog"], validate=validate_lp)
-    if stub_str:
+    if stub_str == "list-only":
+        # hashes go through PolyhedralTerm.__str__ (kept real); error messages format whole lists
+        P.PolyhedralTerm.__str__ = _INSTALLED["term_str"]
+        P.PolyhedralTermList.__str__ = lambda self: "<termlist>"
+    elif stub_str:
         P.PolyhedralTerm.__str__ = lambda self: "<term>"
         P.PolyhedralTermList.__str__ = lambda self: "<termlist>"
     else:
